@@ -483,15 +483,13 @@ fn feed(gen: &mut Generator, buf: &[u8], form: u8) {
 /// this is what makes a chunk "a sequence of single-byte steps with the counter running
 /// ahead": the loop body of every form is the same code, and the only reader of the counter
 /// inside it (the elimination test) is covered for every counter value.
-fn step_one_item(st: usize, en: usize) {
+fn step_one_item(st: usize, en: usize, form: u8) {
     let g0 = any_gen(st, en);
     kani::assume(inv(&g0, st, en));
     kani::assume(g0.input_size < u64::MAX);
     let c: u8 = kani::any();
     let mut byref = Generator(g0);
     byref.update_by_byte(c);
-    let form: u8 = kani::any();
-    kani::assume(form <= 4);
     let mut gen = Generator(g0);
     match form {
         0 | 1 | 2 => feed(&mut gen, &[c], form),
@@ -503,9 +501,8 @@ fn step_one_item(st: usize, en: usize) {
         }
     }
     assert!(gen_eq(&gen.0, &byref.0, st));
-    kani::cover!(form == 0 && gen.0.bhidx_start > st || en - st < 2);
-    kani::cover!(form == 1 && (gen.0.bhidx_end > en || en == 31 || g0.bhidx_end_limit < en));
-    kani::cover!(form == 3);
+    kani::cover!(gen.0.bhidx_start > st || en - st < 2);
+    kani::cover!(gen.0.bhidx_end > en || en == 31 || g0.bhidx_end_limit < en);
 }
 
 /// Two-byte chunks (the size counter runs ahead by one during the first iteration; the
